@@ -19,6 +19,7 @@ from __future__ import annotations
 import argparse
 import ast
 import itertools
+import re
 import os
 import sys
 from fractions import Fraction
@@ -45,7 +46,8 @@ class Raises(Exception):
 #   kind='state'|'value', slice=(start_prefix, end_prefix) on the unparsed statements,
 #   coqname=...).  Field projections are <prefix>_<attr>.
 OPT = "scico/optimize/"
-SHAPE_ATTRS = {"input_shape", "output_shape", "input_dtype", "output_dtype", "shape", "dtype"}
+SHAPE_ATTRS = {"input_shape", "output_shape", "input_dtype", "output_dtype", "shape", "dtype",
+               "input_shapes", "input_dtypes"}
 
 SHP = {k: "unit" for k in ("xshape", "zshape", "ushape", "xdtype", "zdtype", "udtype")}
 
@@ -146,6 +148,58 @@ UNITS = {
             "objective": dict(params={"x": "X"}, kind="value"),
             "norm_residual": dict(kind="value"),
             "minimizer": dict(kind="value")}),
+    "BB": dict(
+        out="C16_BB", file=OPT + "_pgmaux.py", classes=["BBStepSize"], prefix="bb",
+        imports=["From SV Require Import C16.XR C16.GenSig."],
+        context="{K : Type} {NK : Num K} {X : Type} {VX : VecOps (xr K) X}",
+        fields=[("xprev", "option X"), ("gradprev", "option X")],
+        methods={"update": dict(params={"v": "X"}, kind="both",
+                                pre_params=[("pgmL", "xr K"), ("pgm_f", "Func (xr K) X")],
+                                attr_map={"self.pgm.L": "pgmL", "self.pgm.f": "pgm_f"})}),
+    "ABB": dict(
+        out="C16_ABB", file=OPT + "_pgmaux.py", classes=["AdaptiveBBStepSize"], prefix="ab",
+        imports=["From SV Require Import C16.XR C16.GenSig."],
+        context="{K : Type} {NK : Num K} {X : Type} {VX : VecOps (xr K) X}",
+        fields=[("kappa", "K"), ("xprev", "option X"), ("gradprev", "option X"),
+                ("Lbb1prev", "option (xr K)"), ("Lbb2prev", "option (xr K)")],
+        methods={"update": dict(params={"v": "X"}, kind="both",
+                                pre_params=[("pgmL", "xr K"), ("pgm_f", "Func (xr K) X")],
+                                attr_map={"self.pgm.L": "pgmL", "self.pgm.f": "pgm_f"})}),
+    "LS": dict(
+        out="C16_LS", file=OPT + "_pgmaux.py", classes=["LineSearchStepSize"], prefix="ls",
+        context="{K : Type} {NK : Num K} {SK : Sqrt K} {X : Type} {VX : VecOps K X}",
+        fields=[("gamma_u", "K"), ("maxiter", "nat")],
+        methods={"__init__.g_prox": dict(params={"v": "X", "gradv": "X", "L": "K"}, kind="value", coqname="g_prox",
+                                         pre_params=[("pgm_g", "Func K X")], attr_map={"self.pgm.g": "pgm_g"}),
+                 "update": dict(params={"v": "X"}, kind="value", counters=["it"],
+                                pre_params=[("pgmL", "K"), ("pgm_f", "Func K X"), ("pgm_g", "Func K X"),
+                                            ("fquad", "X -> X -> K -> K")],
+                                attr_map={"self.pgm.L": "pgmL", "self.pgm.f": "pgm_f", "self.pgm.g": "pgm_g",
+                                          "self.pgm.f_quad_approx": "fquad"},
+                                helper_pre={"g_prox": ["pgm_g"]})}),
+    "EST_PDHG": dict(
+        out="C17_EstPdhg", file=OPT + "_primaldual.py", classes=["PDHG"],
+        context="{K : Type} {NK : Num K} {SK : Sqrt K} {X : Type} {VX : VecOps K X} {Z : Type} {VZ : VecOps K Z} "
+                "{Key : Type} {ON : OpNormOracle (Op X Z) K Key} {JO : JacOracle (Op X Z) X}",
+        methods={"estimate_parameters": dict(
+            params={"C": "Op X Z", "x": "X", "ratio": "K", "factor": "option K", "maxiter": "nat", "key": "option Key"},
+            kind="value", callees={"operator_norm": ("opnorm_", ["maxiter", "key"]), "jacobian": ("jac_", [])})}),
+    "EST_PADMM": dict(
+        out="C17_EstPadmm", file=OPT + "_padmm.py", classes=["ProximalADMM"],
+        context="{K : Type} {NK : Num K} {SK : Sqrt K} {X : Type} {VX : VecOps K X} {Z : Type} {VZ : VecOps K Z} "
+                "{Key : Type} {ONA : OpNormOracle (Op X Z) K Key} {ONB : OpNormOracle (Op Z Z) K Key}",
+        methods={"estimate_parameters": dict(
+            params={"A": "Op X Z", "B": "Op Z Z", "factor": "option K", "maxiter": "nat", "key": "option Key"},
+            kind="value", callees={"operator_norm": ("opnorm_", ["maxiter", "key"])})}),
+    "EST_NLPADMM": dict(
+        out="C17_EstNlpadmm", file=OPT + "_padmm.py", classes=["NonLinearPADMM"],
+        context="{K : Type} {NK : Num K} {SK : Sqrt K} {X : Type} {VX : VecOps K X} {Z : Type} {VZ : VecOps K Z} "
+                "{U : Type} {VU : VecOps K U} {Key : Type} {ONA : OpNormOracle (Op X U) K Key} "
+                "{ONB : OpNormOracle (Op Z U) K Key} {J0 : Jac0Oracle (Fun2 X Z U) X Z (Op X U)} "
+                "{J1 : Jac1Oracle (Fun2 X Z U) X Z (Op Z U)}",
+        methods={"estimate_parameters": dict(
+            params={"H": "Fun2 X Z U", "x": "X", "z": "Z", "factor": "option K", "maxiter": "nat", "key": "option Key"},
+            kind="value", callees={"operator_norm": ("opnorm_", ["maxiter", "key"])})}),
     "ADMM": dict(
         out="C11_Admm", file=OPT + "_admm.py", classes=["ADMM"], prefix="ad", spaces=["X", "Z"],
         truthy={"f": "has_f"},
@@ -166,6 +220,40 @@ UNITS = {
 }
 
 
+ACTX = "{K : Type} {NK : Num K} {V B : Type} {AO : ArrayOps K V B}"
+
+
+def _au(out, file, cls, meths, fields=None, prefix=""):
+    """element-wise prox unit (scico/functional): literals 0.5 and 2 are denoted khalf / k2"""
+    d = dict(out=out, file=file, classes=[cls], array=True, context=ACTX, lits={0.5: "(khalf : K)", 2: "(k2 : K)"},
+             methods={m: dict(params={"v": "V", "lam": "K"}, kind="value") for m in meths})
+    if fields:
+        d["fields"], d["prefix"] = fields, prefix
+    return d
+
+
+FN = "scico/functional/"
+UNITS.update({
+    "P_L0": _au("C02_L0", FN + "_norm.py", "L0Norm", ["prox"]),
+    "P_L1": _au("C02_L1", FN + "_norm.py", "L1Norm", ["prox"]),
+    "P_SQL2": _au("C02_SqL2", FN + "_norm.py", "SquaredL2Norm", ["prox"]),
+    "P_L2": _au("C02_L2", FN + "_norm.py", "L2Norm", ["prox"]),
+    "P_HUBER": _au("C02_Huber", FN + "_norm.py", "HuberNorm", ["_prox_sep", "_prox_nonsep"],
+                   fields=[("delta", "K")], prefix="hu"),
+    "P_NONNEG": _au("C02_NonNeg", FN + "_indicator.py", "NonNegativeIndicator", ["prox"]),
+    "P_BALL": _au("C02_Ball", FN + "_indicator.py", "L2BallIndicator", ["prox"], fields=[("radius", "K")], prefix="bl"),
+})
+
+UNITS["CG"] = dict(
+    out="C14_CG", file="scico/solver.py", classes=[],
+    context="{K : Type} {NK : Num K} {V : Type} {VV : VecOps K V} {CD : CDot V K} {NO : NormOracle V K}",
+    methods={"cg": dict(params={"A": "V -> V", "b": "V", "x0": "V", "tol": "K", "atol": "K", "maxiter": "nat",
+                                "info": "bool", "M": "V -> V"},
+                        kind="value", slice=("x = x0", "if info"), counters=["ii"], coqname="cg_loop",
+                        returns=["x", "r", "z", "p", "num", "ii"], given=["x0", "M"],
+                        callees={"snp.linalg.norm": ("nrm_", [])})})
+
+
 class Env:
     def __init__(self):
         self.attrs = {}      # self attributes assigned so far -> Coq variable
@@ -174,16 +262,27 @@ class Env:
         self.lists = set()   # python locals known to hold (mutable) lists
         self.idx = None      # enumerate index variable of the enclosing loop
         self.types = {}      # python local -> Coq type, where known
+        self.optnames = set()   # python locals currently holding a None-able (option) value
+        self.attr_plain = {}    # None-able attribute known to be not None here -> Coq variable of its value
+        self.brk = None      # continuation of `break` inside a while loop
+        self.counters = {}   # python local -> 0, while it is a loop counter initialised to the literal 0
 
     def copy(self):
         e = Env()
         e.attrs, e.names, e.none = dict(self.attrs), dict(self.names), dict(self.none)
         e.lists, e.idx, e.types = set(self.lists), self.idx, dict(self.types)
+        e.optnames, e.attr_plain, e.brk = set(self.optnames), dict(self.attr_plain), self.brk
+        e.counters = dict(self.counters)
         return e
+
+
+LITS = {}   # per-unit denotation of particular literals (set by gen_unit)
 
 
 def lit(v):
     fr = Fraction(v) if not isinstance(v, float) else Fraction(str(v))
+    if fr in LITS:
+        return LITS[fr]
     if fr == 0:
         return "(k0 : K)"
     if fr == 1:
@@ -222,8 +321,32 @@ class Tr:
         return (isinstance(e, ast.Attribute) and isinstance(e.value, ast.Name) and e.value.id == "self"
                 and (a is None or e.attr == a))
 
+    # -- None-able (option-typed) values
+    def opt_atom(self, e, env):
+        """Is e a name / attribute that currently holds an option-typed value?  Returns its raw Coq term."""
+        if isinstance(e, ast.Name) and e.id in env.optnames and e.id in env.names:
+            return env.names[e.id]
+        if self.is_self(e) and self.fields.get(e.attr, "").startswith("option ") and e.attr not in env.attr_plain:
+            return self.rd(e.attr, env, e)
+        return None
+
+    def none_test(self, e, env):
+        """`atom is None` / `atom is not None` on a run-time option value -> (raw term, node, is_none?)"""
+        if isinstance(e, ast.Compare) and len(e.ops) == 1 and isinstance(e.ops[0], (ast.Is, ast.IsNot)) \
+                and isinstance(e.comparators[0], ast.Constant) and e.comparators[0].value is None:
+            raw = self.opt_atom(e.left, env)
+            if raw is not None:
+                return raw, e.left, isinstance(e.ops[0], ast.Is)
+        return None
+
     # -- static None-ness of optional parameters
     def static(self, e, env):
+        if isinstance(e, ast.Compare) and len(e.ops) == 1 and isinstance(e.ops[0], (ast.Is, ast.IsNot)) \
+                and isinstance(e.comparators[0], ast.Constant) and e.comparators[0].value is None \
+                and ((isinstance(e.left, ast.Name) and e.left.id in env.names and e.left.id not in env.none
+                      and e.left.id not in env.optnames and e.left.id not in env.counters)
+                     or (self.is_self(e.left) and e.left.attr in env.attr_plain)):
+            return isinstance(e.ops[0], ast.IsNot)     # a value known not to be None on this path
         if isinstance(e, ast.Compare) and len(e.ops) == 1 and isinstance(e.comparators[0], ast.Constant) \
                 and e.comparators[0].value is None and isinstance(e.left, ast.Name) and e.left.id in env.none:
             if isinstance(e.ops[0], ast.Is):
@@ -251,13 +374,19 @@ class Tr:
         if isinstance(e, ast.Name):
             if e.id in env.none and env.none[e.id]:
                 self.bad(e, "use of a parameter that is None on this path")
+            if e.id in env.counters:
+                self.bad(e, "use of a loop counter as a value")
             if e.id in env.names:
-                return env.names[e.id]
+                return f"(oget {env.names[e.id]})" if e.id in env.optnames else env.names[e.id]
             if e.id == "self" and self.u.get("self_is_func"):
                 return "self_"
             self.bad(e, "unknown name")
         if isinstance(e, ast.Attribute):
             if self.is_self(e):
+                if e.attr in env.attr_plain:
+                    return env.attr_plain[e.attr]
+                if self.fields.get(e.attr, "").startswith("option "):
+                    return f"(oget {self.rd(e.attr, env, e)})"   # None here would raise in Python
                 return self.rd(e.attr, env, e)
             if e.attr in SHAPE_ATTRS and not any(isinstance(n, ast.Call) for n in ast.walk(e.value)):
                 return "tt"   # shapes / dtypes are not modelled; only snp.zeros consumes them
@@ -306,11 +435,37 @@ class Tr:
                 env2.types[g.target.id] = lt[5:].strip("()")
             return f"(map (fun v_{g.target.id} => {self.expr(e.elt, env2)}) {X(g.iter)})"
         if isinstance(e, ast.Compare):
-            if len(e.ops) == 1 and isinstance(e.ops[0], ast.Eq):
-                return f"(keqb {X(e.left)} {X(e.comparators[0])})"
+            if len(e.ops) == 1:
+                op, l, r = e.ops[0], e.left, e.comparators[0]
+                if isinstance(op, ast.Eq) and not self.u.get("array"):
+                    return f"(keqb {X(l)} {X(r)})"
+                zero = lambda t: isinstance(t, ast.Constant) and not isinstance(t.value, bool) and t.value == 0
+                if self.u.get("array"):     # element-wise comparisons (with broadcasting)
+                    if isinstance(op, (ast.Gt, ast.GtE)):
+                        l, r = r, l
+                    nm = {ast.Lt: "alt", ast.Gt: "alt", ast.LtE: "ale", ast.GtE: "ale", ast.Eq: "aeq"}.get(type(op))
+                    if nm:
+                        return f"({nm} {X(l)} {X(r)})"
+                    self.bad(e, "comparison")
+                if isinstance(op, ast.LtE) and zero(r):
+                    return f"(hle0 {X(l)})"            # x <= 0.0 (false on NaN)
+                if isinstance(op, (ast.Lt, ast.LtE, ast.Gt, ast.GtE)):
+                    if isinstance(op, (ast.Gt, ast.GtE)):
+                        l, r = r, l
+                    return f"({'hlt' if isinstance(op, (ast.Lt, ast.Gt)) else 'hle'} {X(l)} {X(r)})"
             self.bad(e, "comparison")
+        if isinstance(e, ast.BoolOp):
+            f = "orb" if isinstance(e.op, ast.Or) else "andb"
+            parts = [self.test(v, env) for v in e.values]
+            out = parts[-1]
+            for q in reversed(parts[:-1]):
+                out = f"({f} {q} {out})"       # Python evaluates left to right; both are total here
+            return out
         if isinstance(e, ast.Subscript):
             v = e.value
+            if isinstance(v, ast.Attribute) and v.attr in SHAPE_ATTRS and isinstance(e.slice, ast.Constant) \
+                    and not any(isinstance(n_, ast.Call) for n_ in ast.walk(v.value)):
+                return "tt"
             if isinstance(e.slice, ast.Constant) and e.slice.value == 1 and isinstance(v, ast.Call):
                 f = v.func
                 # H.vjp(i, a, b, conjugate=True)[1]
@@ -363,10 +518,56 @@ class Tr:
         f, fs, n = e.func, ast.unparse(e.func), len(e.args)
         if any(isinstance(a, ast.Starred) for a in e.args):
             self.bad(e, "star argument")
-        if self.is_norm_call(e):
+        if fs in self.m.get("callees", {}):            # library routine modelled as an oracle
+            oname, kws = self.m["callees"][fs]
+            got = {k.arg: k.value for k in e.keywords}
+            if None in got or sorted(got) != sorted(kws):
+                self.bad(e, "keywords of an oracle call")
+            raw = lambda t: self.opt_atom(t, env) or X(t)
+            return "(" + " ".join([oname] + [raw(a) for a in e.args] + [raw(got[k]) for k in kws]) + ")"
+        if isinstance(f, ast.Attribute) and f.attr == "jacobian" and n == 3 and not e.keywords \
+                and isinstance(e.args[0], ast.Constant) and e.args[0].value in (0, 1):
+            return f"(jac{e.args[0].value}_ {X(f.value)} {X(e.args[1])} {X(e.args[2])})"
+        if fs in self.attr_map and not e.keywords:     # a collaborator passed in as a parameter
+            args = [X(a) for a in e.args]
+            if n == 1:
+                return f"(hcall {self.attr_map[fs]} {args[0]})"
+            if n == 2:
+                return f"(hcall2 {self.attr_map[fs]} {args[0]} {args[1]})"
+            return "(" + " ".join([self.attr_map[fs]] + args) + ")"
+        if self.is_norm_call(e) and not self.u.get("array"):
             return f"(vnorm_ {X(e.args[0])})"
         if fs == "snp.sqrt" and n == 1 and not e.keywords:
             return f"(ksqrt {X(e.args[0])})"
+        if self.u.get("array") and not e.keywords:
+            if fs == "snp.abs" and n == 1:
+                return f"(a_abs {X(e.args[0])})"
+            if fs == "snp.sign" and n == 1:
+                return f"(a_sign {X(e.args[0])})"
+            if fs == "snp.maximum" and n == 2:
+                return f"(amax {X(e.args[0])} {X(e.args[1])})"
+            if fs == "snp.where" and n == 3:
+                return f"(awhere {X(e.args[0])} {X(e.args[1])} {X(e.args[2])})"
+            if fs in ("norm", "snp.linalg.norm") and n == 1:
+                return f"(a_norm {X(e.args[0])})"
+            if fs == "snp.util.is_complex_dtype" and n == 1 and isinstance(e.args[0], ast.Attribute) \
+                    and e.args[0].attr == "dtype":
+                return f"(a_is_complex {X(e.args[0].value)})"
+            if fs == "snp.exp" and n == 1 and ast.unparse(e.args[0]).startswith("1j * snp.angle(") \
+                    and isinstance(e.args[0], ast.BinOp) and isinstance(e.args[0].right, ast.Call) \
+                    and len(e.args[0].right.args) == 1:
+                return f"(a_phase {X(e.args[0].right.args[0])})"     # exp(1j*angle(v)) = v/|v| (1 at 0)
+        if fs == "snp.isfinite" and n == 1 and not e.keywords:
+            return f"(hisfinite {X(e.args[0])})"
+        if fs == "snp.real" and n == 1 and not e.keywords:
+            a = e.args[0]     # snp.real(snp.sum(p.conj() * q)) = Re <p, q>
+            if isinstance(a, ast.Call) and ast.unparse(a.func) == "snp.sum" and len(a.args) == 1 and not a.keywords \
+                    and isinstance(a.args[0], ast.BinOp) and isinstance(a.args[0].op, ast.Mult):
+                l, r = a.args[0].left, a.args[0].right
+                if isinstance(l, ast.Call) and isinstance(l.func, ast.Attribute) and l.func.attr == "conj" \
+                        and not l.args and not l.keywords:
+                    return f"(vdot_ {X(l.func.value)} {X(r)})"
+            self.bad(e, "snp.real of this form")
         if fs == "snp.zeros" and n == 1 and all(k.arg == "dtype" for k in e.keywords):
             X(e.args[0])
             for k in e.keywords:
@@ -382,6 +583,13 @@ class Tr:
         if fs == "Identity" and n == 2 and not e.keywords:
             X(e.args[0]), X(e.args[1])
             return "op_identity"
+        if fs == "snp.maximum" and n == 2 and not e.keywords:
+            return f"(amax {X(e.args[0])} {X(e.args[1])})"
+        if fs == "snp.sum" and n == 1 and not e.keywords and isinstance(e.args[0], ast.BinOp) \
+                and isinstance(e.args[0].op, ast.Mult) and isinstance(e.args[0].left, ast.Call) \
+                and isinstance(e.args[0].left.func, ast.Attribute) and e.args[0].left.func.attr == "conj" \
+                and not e.args[0].left.args and not e.args[0].left.keywords:
+            return f"(cdot_ {X(e.args[0].left.func.value)} {X(e.args[0].right)})"   # sum(u.conj() * v)
         if fs == "snp.sum" and n == 1 and not e.keywords:
             a = e.args[0]     # snp.sum(snp.real(snp.conj(p) * q)) = Re <p, q>
             if isinstance(a, ast.Call) and ast.unparse(a.func) == "snp.real" and len(a.args) == 1 \
@@ -440,7 +648,8 @@ class Tr:
                 return f"(ss_update {X(recv)} {self.rd('L', env)} {X(e.args[0])})"
             if self.is_self(f):
                 if a in self.helpers and not e.keywords:      # method of the same object
-                    return "(" + " ".join([self.helpers[a], self.cur_state(env)] + [X(t) for t in e.args]) + ")"
+                    pre = self.m.get("helper_pre", {}).get(a, [])
+                    return "(" + " ".join([self.helpers[a]] + pre + [self.cur_state(env)] + [X(t) for t in e.args]) + ")"
                 if a in self.fields and not e.keywords:       # self.C(x), self.f(x), self.H(x, z)
                     if n == 1:
                         return f"(hcall {self.rd(a, env)} {X(e.args[0])})"
@@ -456,7 +665,7 @@ class Tr:
             return self.rd(e.attr, env)
         if isinstance(e, ast.Name) and self.m.get("params", {}).get(e.id) == "bool":
             return self.expr(e, env)
-        if isinstance(e, (ast.Compare, ast.Call)) or (isinstance(e, ast.UnaryOp) and isinstance(e.op, ast.Not)):
+        if isinstance(e, (ast.Compare, ast.Call, ast.BoolOp)) or (isinstance(e, ast.UnaryOp) and isinstance(e.op, ast.Not)):
             return self.expr(e, env)
         self.bad(e, "truth value")
 
@@ -497,6 +706,18 @@ class Tr:
             env.names[t.id] = "v_" + t.id
             if t.id in env.none:
                 env.none[t.id] = False
+            env.counters.pop(t.id, None)
+            if isinstance(val_node, ast.Constant) and val_node.value == 0 and not isinstance(val_node.value, bool) \
+                    and self.m.get("counters") and t.id in self.m["counters"]:
+                env.counters[t.id] = 0
+                if t.id in (self.m.get("returns") or []):
+                    return f"let v_{t.id} := 0%nat in\n"    # the count is also a result
+                return ""                       # a while-loop counter: only its role as fuel is translated
+            raw = self.opt_atom(val_node, env) if val_node is not None else None
+            if raw is not None:                 # copy of a None-able value
+                env.optnames.add(t.id)
+                return f"let v_{t.id} := {raw} in\n"
+            env.optnames.discard(t.id)
             return f"let v_{t.id} := {val} in\n"
         if self.is_self(t):
             if t.attr not in self.fields:
@@ -504,7 +725,15 @@ class Tr:
             if val_node is not None and self.is_listy(val_node, env):
                 self.bad(t, "aliasing of a mutable list (no .copy())")
             env.attrs[t.attr] = "self_" + t.attr
-            return f"let self_{t.attr} : {self.fields[t.attr]} := {val} in\n"
+            fty = self.fields[t.attr]
+            if fty.startswith("option "):
+                raw = self.opt_atom(val_node, env) if val_node is not None else None
+                env.attr_plain.pop(t.attr, None)
+                if raw is not None:
+                    return f"let self_{t.attr} : {fty} := {raw} in\n"
+                env.attr_plain[t.attr] = f"self_{t.attr}_v"
+                return f"let self_{t.attr}_v := {val} in\nlet self_{t.attr} : {fty} := Some self_{t.attr}_v in\n"
+            return f"let self_{t.attr} : {fty} := {val} in\n"
         if isinstance(t, ast.Subscript) and self.is_self(t.value) and isinstance(t.slice, ast.Name) \
                 and env.idx == t.slice.id and self.fields.get(t.value.attr, "").startswith("list"):
             a = t.value.attr
@@ -529,15 +758,27 @@ class Tr:
         if isinstance(st, ast.Assert):
             if self.static(st.test, env) is True:
                 return cont(env)
+            tt_ = st.test
+            if isinstance(tt_, ast.Call) and ast.unparse(tt_.func) == "isinstance" and len(tt_.args) == 2 \
+                    and isinstance(tt_.args[0], ast.Name) and tt_.args[0].id in env.names and st.msg is None:
+                return cont(env)     # type narrowing for mypy; the Coq type already says so
             self.bad(st, "assert")
         if isinstance(st, ast.Raise):
             raise Raises()
         if isinstance(st, ast.Return):
             if st.value is None:
                 self.bad(st, "bare return")
+            if self.m["kind"] == "both":
+                return f"({self.expr(st.value, env)}, {self.cur_state(env)})"
             if self.m["kind"] != "value":
                 self.bad(st, "return in a state method")
             return self.expr(st.value, env)
+        if isinstance(st, ast.Break):
+            if env.brk is None:
+                self.bad(st, "break outside a translated loop")
+            return env.brk(env)
+        if isinstance(st, ast.While):
+            return self.while_loop(st, env, cont)
         if isinstance(st, ast.AnnAssign):
             if st.value is None or not st.simple and not self.is_self(st.target):
                 self.bad(st, "annotated assignment")
@@ -546,8 +787,8 @@ class Tr:
             if len(st.targets) != 1:
                 self.bad(st, "chained assignment")
             t = st.targets[0]
-            if ast.unparse(st) == "self.x_step = jax.jit(x_step)":
-                return cont(env)   # checked separately: the closure is translated as x_step_gen
+            if re.fullmatch(r"self\.(\w+) = jax\.jit\(\1\)", ast.unparse(st)):
+                return cont(env)   # checked separately: the closure is translated as <name>_gen
             if isinstance(t, ast.Tuple):
                 if isinstance(st.value, ast.Tuple) and len(st.value.elts) == len(t.elts):
                     vals = [self.expr(v, env) for v in st.value.elts]   # evaluated before binding
@@ -572,8 +813,29 @@ class Tr:
                 return self.block(st.body + rest, env, k)
             if c is False:
                 return self.block(st.orelse + rest, env, k)
-            ce = self.test(st.test, env)
+            if isinstance(st.test, ast.BoolOp) and isinstance(st.test.op, ast.And) \
+                    and any(self.none_test(v, env) or self.static(v, env) is not None for v in st.test.values):
+                # `if A and B: P else: Q`  =  `if A: (if B: P else: Q) else: Q`
+                first, others = st.test.values[0], st.test.values[1:]
+                inner_test = others[0] if len(others) == 1 else ast.BoolOp(op=ast.And(), values=others)
+                inner = ast.If(test=inner_test, body=st.body, orelse=st.orelse)
+                return self.block([ast.If(test=first, body=[inner], orelse=st.orelse)] + rest, env, k)
+            nt = self.none_test(st.test, env)
             try:
+                if nt:
+                    raw, node, is_none = nt
+                    e_some = env.copy()
+                    fresh = ("v_" + node.id + "_v") if isinstance(node, ast.Name) else f"self_{node.attr}_v"
+                    if isinstance(node, ast.Name):
+                        e_some.names[node.id] = fresh
+                        e_some.optnames.discard(node.id)
+                    else:
+                        e_some.attr_plain[node.attr] = fresh
+                    bn, bs = (st.body, st.orelse) if is_none else (st.orelse, st.body)
+                    a = self.block(bn + rest, env.copy(), k)
+                    b = self.block(bs + rest, e_some, k)
+                    return f"match {raw} with\n| None => (\n{a})\n| Some {fresh} => (\n{b})\nend"
+                ce = self.test(st.test, env)
                 a = self.block(st.body + rest, env.copy(), k)
                 b = self.block(st.orelse + rest, env.copy(), k)
             except Raises:
@@ -584,6 +846,91 @@ class Tr:
         if isinstance(st, ast.FunctionDef) and self.m.get("skip_defs"):
             return cont(env)
         self.bad(st, "statement " + type(st).__name__)
+
+    def assigned(self, body, env, exclude=()):
+        """(kind, name) of the variables a loop body carries from one iteration to the next."""
+        carried = []
+        for node in ast.walk(ast.Module(body=body, type_ignores=[])):
+            tg = []
+            if isinstance(node, (ast.Assign,)):
+                tg = node.targets
+            elif isinstance(node, (ast.AugAssign, ast.AnnAssign)):
+                tg = [node.target]
+            for t in tg:
+                for el in (t.elts if isinstance(t, ast.Tuple) else [t]):
+                    if isinstance(el, ast.Subscript):
+                        el = el.value
+                    if self.is_self(el) and ("attr", el.attr) not in carried:
+                        carried.append(("attr", el.attr))
+                    elif isinstance(el, ast.Name) and el.id in env.names and el.id not in exclude \
+                            and ("name", el.id) not in carried:
+                        carried.append(("name", el.id))
+        return carried
+
+    def while_loop(self, st, env, cont):
+        """`it = 0; while it < bound: BODY; it += 1` with `break`: structural recursion on the
+        bound as fuel (exact: the loop runs at most `bound` times, `break` leaves early)."""
+        t = st.test
+        extra = None
+        if isinstance(t, ast.BoolOp) and isinstance(t.op, ast.And) and len(t.values) == 2:
+            t, extra = t.values       # `while (counter < bound) and COND`
+        if st.orelse or not (isinstance(t, ast.Compare) and len(t.ops) == 1 and isinstance(t.ops[0], ast.Lt)
+                             and isinstance(t.left, ast.Name) and env.counters.get(t.left.id) == 0):
+            self.bad(st, "while loop that is not `counter < bound` with the counter initialised to 0")
+        cnt = t.left.id
+        last = st.body[-1] if st.body else None
+        if not (isinstance(last, ast.AugAssign) and isinstance(last.op, ast.Add) and isinstance(last.target, ast.Name)
+                and last.target.id == cnt and isinstance(last.value, ast.Constant) and last.value.value == 1):
+            self.bad(st, "while body must end with `counter += 1`")
+        body = st.body[:-1]
+        for n in ast.walk(ast.Module(body=body, type_ignores=[])):
+            if isinstance(n, ast.Name) and n.id == cnt:
+                self.bad(n, "loop counter used inside the loop body")
+            if isinstance(n, (ast.Continue, ast.Return)):
+                self.bad(n, "continue / return inside a while loop")
+        carried = self.assigned(body, env, exclude=(cnt,))
+        keep_cnt = cnt in (self.m.get("returns") or [])
+        bound_names = {n.id for n in ast.walk(t.comparators[0]) if isinstance(n, ast.Name)}
+        if any(kd == "name" and n in bound_names for kd, n in carried) or \
+                any(kd == "attr" and n in ast.unparse(t.comparators[0]) for kd, n in carried):
+            self.bad(st, "loop bound modified inside the loop")
+        if not carried:
+            self.bad(st, "loop without effect")
+        cenv = env.copy()
+        del cenv.counters[cnt]
+        bound = self.expr(t.comparators[0], cenv)
+        cvars = [("self_" + n if kd == "attr" else "v_" + n) for kd, n in carried]
+        init = [(self.rd(n, env) if kd == "attr" else env.names[n]) for kd, n in carried]
+        tup = lambda xs: xs[0] if len(xs) == 1 else "(" + ", ".join(xs) + ")"
+        benv = env.copy()
+        del benv.counters[cnt]
+        for kd, n in carried:
+            if kd == "attr":
+                benv.attrs[n] = "self_" + n
+        if keep_cnt:
+            cvars.append("v_" + cnt)
+            init.append("v_" + cnt)
+        cur = lambda ev, nxt=False: tup([(ev.attrs[n] if kd == "attr" else ev.names[n]) for kd, n in carried]
+                                        + ([f"(S v_{cnt})" if nxt else "v_" + cnt] if keep_cnt else []))
+        benv.brk = lambda ev: cur(ev)
+        bodytxt = self.block(body, benv, lambda ev: f"(loop_ fuel_ {cur(ev, True)})")
+        if extra is not None:
+            xenv = env.copy()
+            del xenv.counters[cnt]
+            for kd, n in carried:
+                if kd == "attr":
+                    xenv.attrs[n] = "self_" + n
+            bodytxt = f"if {self.test(extra, xenv)} then (\n{bodytxt}) else {tup(cvars)}"
+        for kd, n in carried:
+            if kd == "attr":
+                env.attrs[n] = "self_" + n
+        del env.counters[cnt]
+        if keep_cnt:
+            env.names[cnt] = "v_" + cnt
+        accpat = cvars[0] if len(cvars) == 1 else "'" + tup(cvars)
+        s = (f"let {accpat} := (fix loop_ (fuel_ : nat) acc_ {{struct fuel_}} :=\n"
+             f"  match fuel_ with\n  | O => acc_\n  | S fuel_ => let {accpat} := acc_ in\n{bodytxt}\n  end) {bound} {tup(init)} in\n")
+        return s + cont(env)
 
     def loop(self, st, env, cont):
         if st.orelse:
@@ -657,6 +1004,11 @@ class Tr:
 def find_func(tree, classes, path, fn):
     """path = [Class.]method[.nested]; search the class chain (most derived first)."""
     parts = path.split(".")
+    if not classes:        # module-level function
+        for node in tree.body:
+            if isinstance(node, ast.FunctionDef) and node.name == parts[0] and len(parts) == 1:
+                return node
+        raise Unsupported(fn, tree, f"function {path} not found")
     cls_list = classes
     if parts[0] in classes:
         cls_list, parts = [parts[0]], parts[1:]
@@ -670,10 +1022,9 @@ def find_func(tree, classes, path, fn):
                             nxt = [x for x in cur.body if isinstance(x, ast.FunctionDef) and x.name == sub]
                             if not nxt:
                                 raise Unsupported(fn, cur, f"nested function {sub} not found")
-                            if sub == "x_step" and not any(
-                                    isinstance(x, ast.Assign) and ast.unparse(x) == "self.x_step = jax.jit(x_step)"
-                                    for x in cur.body):
-                                raise Unsupported(fn, cur, "self.x_step is not jax.jit(x_step)")
+                            if not any(isinstance(x, ast.Assign) and ast.unparse(x) == f"self.{sub} = jax.jit({sub})"
+                                       for x in cur.body):
+                                raise Unsupported(fn, cur, f"self.{sub} is not jax.jit({sub})")
                             cur = nxt[0]
                         return cur
     raise Unsupported(fn, tree, f"method {path} not found in {classes}")
@@ -682,15 +1033,16 @@ def find_func(tree, classes, path, fn):
 def translate_method(unit, fn, tree, path, spec, helpers):
     fdef = find_func(tree, unit["classes"], path, fn)
     a = fdef.args
-    if a.vararg or a.kwonlyargs or a.posonlyargs:
+    if a.vararg or a.posonlyargs:
         raise Unsupported(fn, fdef, "signature")
     if a.kwarg and a.kwarg.arg != "kwargs":
         raise Unsupported(fn, fdef, "signature")
-    if fdef.decorator_list:
+    if any(ast.unparse(d) not in ("staticmethod", "jit") for d in fdef.decorator_list):
         raise Unsupported(fn, fdef, "decorator")
-    pnames = [p.arg for p in a.args if p.arg != "self"]
+    pnames = [p.arg for p in a.args if p.arg != "self"] + [p.arg for p in a.kwonlyargs]
     ndef = len(a.defaults)
     defaults = dict(zip([p.arg for p in a.args][len(a.args) - ndef:], a.defaults))
+    defaults.update({p.arg: d for p, d in zip(a.kwonlyargs, a.kw_defaults) if d is not None})
     ptypes = spec.get("params", {})
     body = list(fdef.body)
     used = pnames
@@ -708,7 +1060,8 @@ def translate_method(unit, fn, tree, path, spec, helpers):
         if p not in ptypes:
             raise Unsupported(fn, fdef, f"parameter {p} has no type in the unit table")
     optional = [p for p in used if p in defaults and isinstance(defaults[p], ast.Constant)
-                and defaults[p].value is None]
+                and defaults[p].value is None and not ptypes[p].startswith("option ")
+                and p not in spec.get("given", [])]       # `given`: set by the statements before the slice
     for p in used:
         if p in defaults and p not in optional and not isinstance(defaults[p], ast.Constant):
             raise Unsupported(fn, fdef, f"default of {p}")
@@ -726,15 +1079,19 @@ def translate_method(unit, fn, tree, path, spec, helpers):
                 env.none[p] = p not in given
             if p not in optional or p in given:
                 env.names[p] = "v_" + p
+            if ptypes[p].startswith("option "):
+                env.optnames.add(p)
             env.types[p] = ptypes[p]
         suffix = "" if not optional else ("__" + ("_".join(given) if given else "none"))
         name = f"{base}_gen{suffix}"
         pre = "".join(f" ({n} : {t})" for n, t in spec.get("pre_params", []))
-        sarg = "" if unit.get("self_is_func") or spec.get("pre_params") else " (s : st)"
+        sarg = " (s : st)" if unit.get("fields") else ""
         if unit.get("self_is_func"):
             sarg = f" (self_ : {unit['self_is_func']})"
         args = "".join(f" (v_{p} : {ptypes[p]})" for p in used if p not in optional or p in given)
-        if spec["kind"] == "state":
+        if spec.get("returns"):
+            k = lambda ev: "(" + ", ".join(ev.names[n] for n in spec["returns"]) + ")"
+        elif spec["kind"] == "state" or (spec["kind"] == "both" and spec.get("implicit_none")):
             k = lambda ev, tr=tr: tr.cur_state(ev)
         else:
             def k(ev, fdef=fdef):
@@ -754,16 +1111,19 @@ def indent(s, n=2):
 
 def gen_unit(name, repo, src_override=None):
     u = UNITS[name]
+    LITS.clear()
+    LITS.update({Fraction(str(k)): v for k, v in u.get("lits", {}).items()})
     fn = src_override or str(Path(repo) / u["file"])
     hdr = [f"(* GENERATED by tools/py2coq.py from {u['file']} ({', '.join(u['classes'])}) -- do not edit *)",
            "From Coq Require Import List Bool ZArith.",
            "From SV Require Import Base.Num C11.Overload."]
+    hdr += u.get("imports", [])
     for r in u.get("requires", []):
         hdr.append(f"From SVGen Require Import {r}.")
-    hdr += ["Import ListNotations.", "Local Open Scope py_scope.", "", f"Section {name}.",
-            "  Context {K : Type} {NK : Num K} {SK : Sqrt K} "
-            + " ".join(f"{{{s} : Type}} {{V{s} : VecOps K {s}}}" for s in u["spaces"])
-            + " " + " ".join(u.get("oracles", [])) + "."]
+    ctxt = u.get("context") or ("{K : Type} {NK : Num K} {SK : Sqrt K} "
+                                + " ".join(f"{{{s} : Type}} {{V{s} : VecOps K {s}}}" for s in u["spaces"])
+                                + " " + " ".join(u.get("oracles", [])))
+    hdr += ["Import ListNotations.", "Local Open Scope py_scope.", "", f"Section {name}.", f"  Context {ctxt}."]
     body = []
     try:
         tree = ast.parse(Path(fn).read_text(), filename=fn)
